@@ -187,6 +187,16 @@ pub fn run_c08(cfg: &RunCfg, trace: bool) -> RunOut {
             let (h, lines) = deep_hash(&s);
             (id, h, lines)
         };
+        // layers that are sub-directories of a shared instance: the part of the shared
+        // filesystem below the layer directory
+        let take_prefix = |id: u16, pfx: &str| -> (u16, u64, Vec<String>) {
+            let s = b.ctl.quiet(|| snapshot(&b.node(id).root, &uni, false, false));
+            let (_, lines) = deep_hash(&s);
+            let lines: Vec<String> = lines.into_iter().filter(|l| l.starts_with(&format!("{}/", pfx)) || l.starts_with(&format!("{} ", pfx))).collect();
+            let h = lines.iter().fold(0u64, |h, l| crate::rng::mix(h, crate::rng::hash_str(l)));
+            (id, h, lines)
+        };
+        let prefixes = b.lower_layer_prefixes();
         // failing calls alike: arm / disarm the injected failure around its operation
         if let Some(plan) = &cx.cfg.fault {
             let ctl = cx.built[0].ctl.clone();
@@ -207,7 +217,7 @@ pub fn run_c08(cfg: &RunCfg, trace: bool) -> RunOut {
         }
         if !started {
             started = true;
-            lower_before = layer_roots.iter().map(|id| take(*id)).collect();
+            lower_before = layer_roots.iter().map(|id| take(*id)).chain(prefixes.iter().map(|(id, p)| take_prefix(*id, p))).collect();
             b.ctl.take_log();
             b.ctl.set_rec(true);
             return false;
@@ -224,7 +234,8 @@ pub fn run_c08(cfg: &RunCfg, trace: bool) -> RunOut {
             if fastpath && !r.ok {
                 continue;
             }
-            if lowers.contains(&r.node) {
+            let (mp, mp2) = crate::stack::Built::mutated_paths(r.method, &r.path, r.path2.as_deref());
+            if b.touches_lower(r.node, mp, mp2) {
                 cx.out.count("probe.c08.lower_mutation_seen");
                 let kind = b.node(r.node).kind;
                 let key = format!("C08|{}|lower-layer-mutating-call|{}|during={}", shape, r.method, op.kind());
@@ -239,11 +250,11 @@ pub fn run_c08(cfg: &RunCfg, trace: bool) -> RunOut {
                 return true;
             }
         }
-        if log.iter().any(|r| !r.mutating && lowers.contains(&r.node)) {
+        if log.iter().any(|r| !r.mutating && b.touches_lower(r.node, &r.path, None)) {
             cx.out.count("probe.c08.lower_layer_read");
         }
         // (2) deep snapshots of lower layers unchanged
-        let after: Vec<(u16, u64, Vec<String>)> = layer_roots.iter().map(|id| take(*id)).collect();
+        let after: Vec<(u16, u64, Vec<String>)> = layer_roots.iter().map(|id| take(*id)).chain(prefixes.iter().map(|(id, p)| take_prefix(*id, p))).collect();
         for (bef, aft) in lower_before.iter().zip(after.iter()) {
             if bef.1 != aft.1 {
                 let diff: Vec<&String> = aft.2.iter().filter(|l| !bef.2.contains(l)).chain(bef.2.iter().filter(|l| !aft.2.contains(l))).take(4).collect();
